@@ -45,8 +45,18 @@ def claims():
         rows.append("| %s | %s | %s |" % (p, str(m.META.get("level", m.META.get("level_text", "")))[:40].replace("|", "\\|"), m.META.get("technique", "").replace("|", "\\|")[:260]))
     return "\n".join(rows)
 
+def levels():
+    claimed = open("tools/claimed.txt").read().split()
+    out = []
+    for p in claimed:
+        m = importlib.import_module("props." + p.lower())
+        out.append("* **%s** — %s%s" % (p, m.META.get("level_text", "").strip(),
+                                        ("  \n  *Partial / not covered:* " + m.META["level_note"].strip()) if m.META.get("level_note") else ""))
+    return "\n".join(out)
+
+
 s = open("DESIGN.md").read()
-for name, fn in (("seeds", seeds), ("fixes", fixes), ("findings", findings), ("claims", claims)):
+for name, fn in (("seeds", seeds), ("fixes", fixes), ("findings", findings), ("claims", claims), ("levels", levels)):
     b, e = "<!-- BEGIN %s -->" % name, "<!-- END %s -->" % name
     if b in s:
         i, j = s.index(b) + len(b), s.index(e)
